@@ -34,7 +34,7 @@ F(kind, doc, cls, tok, where, app) == [kind |-> kind, doc |-> doc, cls |-> cls, 
 NP == {"JSIGHT", "Title", "Version", "SERVER", "BaseUrl", "MACRO", "PASTE", "TAG", "Tags", "Protocol", "Method", "OperationId", "ENUM"}
 AN == {"JSIGHT", "INFO", "Title", "Version", "Description", "BaseUrl", "URL", "Query", "Request", "Headers", "Path",
        "Protocol", "MACRO", "PASTE", "Tags", "OperationId", "Params", "Result"}
-DL == {"Title", "Version", "Description", "BaseUrl", "Query", "Headers", "OperationId", "Protocol", "Path", "Body"}
+DL == {"Title", "Version", "Description", "BaseUrl", "Query", "Headers", "OperationId", "Protocol", "Path", "Body", "Tags"}
 
 BlockStart(bs, x) == 2 + Len(Concat(SubSeq(bs, 1, x - 1), 1))     \* token index of the first token of block x
 DupCls(k) == CASE k \in {"TYPE", "ENUM", "SERVER", "TAG", "MACRO"} -> "dupname"
